@@ -87,16 +87,47 @@ func (w *World) G(f *Func) *Graph {
 	}
 	first := map[*cfg.Block]int{}
 	last := map[*cfg.Block]int{}
+	pending := map[*cfg.Block]ast.Expr{}
 	add := func(n *GNode) int {
 		n.ID = len(g.Nodes)
 		g.Nodes = append(g.Nodes, n)
 		return n.ID
 	}
+	mk := func(b *cfg.Block, an ast.Node) *GNode {
+		n := &GNode{Block: b, Ast: an}
+		if rs, ok := an.(*ast.ReturnStmt); ok {
+			n.Ret = rs
+		}
+		// calls inside this node (not inside literals)
+		ast.Inspect(an, func(x ast.Node) bool {
+			switch xx := x.(type) {
+			case *ast.FuncLit:
+				return false
+			case *ast.CallExpr:
+				if cs := siteOf[xx]; cs != nil {
+					n.Calls = append(n.Calls, cs)
+				}
+			}
+			return true
+		})
+		// evaluation order approximation: inner calls first
+		sort.SliceStable(n.Calls, func(a, b int) bool { return n.Calls[a].Call.End() < n.Calls[b].Call.End() })
+		return n
+	}
 	for _, b := range c.Blocks {
 		if !b.Live {
 			continue
 		}
-		if len(b.Nodes) == 0 {
+		nodes := b.Nodes
+		// the controlling expression of a two-way block is expanded into short-circuit
+		// leaves in the second pass
+		if len(b.Succs) == 2 && len(nodes) > 0 {
+			if e, ok := nodes[len(nodes)-1].(ast.Expr); ok {
+				pending[b] = e
+				nodes = nodes[:len(nodes)-1]
+			}
+		}
+		if len(nodes) == 0 {
 			n := &GNode{Block: b}
 			if rs, ok := b.Stmt.(*ast.RangeStmt); ok && b.Kind == cfg.KindRangeLoop {
 				n.RangeHead = rs
@@ -105,26 +136,8 @@ func (w *World) G(f *Func) *Graph {
 			first[b], last[b] = id, id
 			continue
 		}
-		for i, an := range b.Nodes {
-			n := &GNode{Block: b, Ast: an}
-			if rs, ok := an.(*ast.ReturnStmt); ok {
-				n.Ret = rs
-			}
-			// calls inside this node (not inside literals)
-			ast.Inspect(an, func(x ast.Node) bool {
-				switch xx := x.(type) {
-				case *ast.FuncLit:
-					return false
-				case *ast.CallExpr:
-					if cs := siteOf[xx]; cs != nil {
-						n.Calls = append(n.Calls, cs)
-					}
-				}
-				return true
-			})
-			// evaluation order approximation: inner calls first
-			sort.SliceStable(n.Calls, func(a, b int) bool { return n.Calls[a].Call.End() < n.Calls[b].Call.End() })
-			id := add(n)
+		for i, an := range nodes {
+			id := add(mk(b, an))
 			if i == 0 {
 				first[b] = id
 			}
@@ -136,11 +149,42 @@ func (w *World) G(f *Func) *Graph {
 	}
 	exit := add(&GNode{Exit: true})
 	g.Exit = exit
+	// expand a condition into leaves; returns the id of the node evaluated first
+	var expand func(b *cfg.Block, e ast.Expr, t, f int) int
+	expand = func(b *cfg.Block, e ast.Expr, t, f int) int {
+		switch x := ast.Unparen(e).(type) {
+		case *ast.UnaryExpr:
+			if x.Op == token.NOT {
+				return expand(b, x.X, f, t)
+			}
+		case *ast.BinaryExpr:
+			if x.Op == token.LAND {
+				nb := expand(b, x.Y, t, f)
+				return expand(b, x.X, nb, f)
+			}
+			if x.Op == token.LOR {
+				nb := expand(b, x.Y, t, f)
+				return expand(b, x.X, t, nb)
+			}
+		}
+		n := mk(b, ast.Unparen(e))
+		n.IsCond = true
+		if tag, ok := caseTag[e]; ok {
+			n.SwitchTag = tag
+		}
+		n.Succs = []Edge{{To: t, Cond: 1}, {To: f, Cond: 2}}
+		return add(n)
+	}
 	for _, b := range c.Blocks {
 		if !b.Live {
 			continue
 		}
 		l := g.Nodes[last[b]]
+		if e, ok := pending[b]; ok {
+			root := expand(b, e, first[b.Succs[0]], first[b.Succs[1]])
+			l.Succs = append(l.Succs, Edge{To: root})
+			continue
+		}
 		switch len(b.Succs) {
 		case 0:
 			if l.Ret != nil {
@@ -156,12 +200,8 @@ func (w *World) G(f *Func) *Graph {
 		case 1:
 			l.Succs = append(l.Succs, Edge{To: first[b.Succs[0]]})
 		case 2:
+			// two-way block without a controlling expression (range / select heads)
 			l.IsCond = true
-			if e, ok := l.Ast.(ast.Expr); ok {
-				if tag, ok := caseTag[e]; ok {
-					l.SwitchTag = tag
-				}
-			}
 			l.Succs = append(l.Succs, Edge{To: first[b.Succs[0]], Cond: 1}, Edge{To: first[b.Succs[1]], Cond: 2})
 		default:
 			for _, s := range b.Succs {
